@@ -45,7 +45,7 @@ def judge_report(l, r, cfg, rep, crash, predicted, text):
         if "null-seq-element" in tags and mc == "sync":
             tags = "null-seq-element"              # the only raising branch known: path + "[None]" (differ.py:328-337)
         sig = "%s:crash:%s%s" % (tags, mc, "" if predicted.get("crash") else ":unpredicted")
-        out.append((sig, "%s [--arrays %s --aoh %s]: compare_to/get_report raised %s" % (text, cfg["arrays"], cfg["aoh"], crash), "crash"))
+        out.append((sig, "%s [%s]: compare_to/get_report raised %s" % (text, cfg_text(cfg), crash), "crash"))
         return out, None
     v = diffobs.verdict(rep, l, r, cfg)
     for cl in CLAUSES:
@@ -59,7 +59,7 @@ def judge_report(l, r, cfg, rep, crash, predicted, text):
                 break
             tags = diffobs.cause(l, r, cfg, alt)
         sig = "%s:%s:%s%s" % (tags, name, mc, "" if not predicted.get(cl, True) else ":unpredicted")
-        out.append((sig, "%s [--arrays %s --aoh %s]: %s" % (text, cfg["arrays"], cfg["aoh"], w["why"]), cl))
+        out.append((sig, "%s [%s]: %s" % (text, cfg_text(cfg), w["why"]), cl))
     return out, v
 
 
@@ -98,6 +98,32 @@ def unchanged(l, r, ldata, rdata, variant):
     return ok
 
 
+def case_cfg(m):
+    """Configuration of a ModeCase record of MC_Diff: global modes + per-path rules / keys."""
+    return {"arrays": m["ar"], "aoh": m["ao"], "rules": [[list(p), v] for p, v in m.get("ru", ())], "keys": [[list(p), v] for p, v in m.get("ky", ())]}
+
+
+def cfg_text(cfg):
+    from harness import diffobs
+    extra = "".join(" [rules] %s = %s" % (diffobs.path_text(p), v) for p, v in cfg.get("rules", ())) + \
+            "".join(" [keys] %s = %s" % (diffobs.path_text(p), v) for p, v in cfg.get("keys", ()))
+    return "--arrays %s --aoh %s%s" % (cfg["arrays"], cfg["aoh"], extra)
+
+
+def run_real(ldata, rdata, cfg, salt):
+    """The real Differ under cfg.  Global modes: the default is left unsaid; with a configuration file they come
+    from the command line or (every other case) from its [defaults] section, the command line then being silent."""
+    from harness import diffobs
+    if not cfg["rules"] and not cfg["keys"]:
+        default = cfg["arrays"] == "position" and cfg["aoh"] == "position"
+        return diffobs.run_differ(ldata, rdata, None if default else cfg["arrays"], None if default else cfg["aoh"])
+    scratch = os.path.join(core.VERIF, "out", "C06", "ini")
+    os.makedirs(scratch, exist_ok=True)
+    defaults = salt % 2 == 1
+    return diffobs.run_differ(ldata, rdata, None if defaults else cfg["arrays"], None if defaults else cfg["aoh"],
+                              ini=diffobs.ini_text(cfg, defaults), scratch=os.path.join(scratch, "%d.ini" % os.getpid()))
+
+
 def judge_pair(cl, cr, modes, variants):
     """Replay one emitted pair under its modes.  modes: the model's ModeCase records."""
     from harness import diffobs
@@ -107,9 +133,8 @@ def judge_pair(cl, cr, modes, variants):
     for variant in variants:
         ldata, rdata, text = load_pair(l, r, variant)
         for m in modes:
-            cfg = {"arrays": m["ar"], "aoh": m["ao"]}
-            default = cfg["arrays"] == "position" and cfg["aoh"] == "position"
-            rep, crash = diffobs.run_differ(ldata, rdata, None if default else cfg["arrays"], None if default else cfg["aoh"])
+            cfg = case_cfg(m)
+            rep, crash = run_real(ldata, rdata, cfg, len(cl) + len(cr) + len(cfg["rules"]))
             st["evaluations"] += 1
             # the model's own evaluation, re-done here: the two implementations of the clauses must agree
             mrep = diffobs.valued(m["es"], l, r)
@@ -123,6 +148,8 @@ def judge_pair(cl, cr, modes, variants):
             if not m["dom"]:
                 st["outside_domain"] += 1          # key/deep on a list with a member that is not a hash: no verdict
                 continue
+            if cfg["rules"] or cfg["keys"]:
+                st["per_path_config_evaluations"] += 1
             for c in CLAUSES:
                 if not m[FLAG[c]]:
                     st["predicted_" + c] += 1
@@ -133,6 +160,7 @@ def judge_pair(cl, cr, modes, variants):
             viol, v = judge_report(l, r, cfg, rep, crash, predicted, text)
             for sig, desc, clause in viol:
                 out.append((sig, desc, {"kind": "pair", "l": cl, "r": cr, "arrays": cfg["arrays"], "aoh": cfg["aoh"],
+                                        "rules": cfg["rules"], "keys": cfg["keys"],
                                         "style": variant[0], "plain": variant[1], "clause": clause}))
             if rep is not None:
                 if rep:
@@ -175,7 +203,7 @@ def tlc_pairs(ctx, cfgs):
             key = (json.dumps(x["l"]), json.dumps(x["r"]))
             ent = pairs.setdefault(key, {"l": x["l"], "r": x["r"], "ms": {}})
             for m in x["ms"]:
-                ent["ms"][(m["ar"], m["ao"])] = m
+                ent["ms"][(m["ar"], m["ao"], json.dumps(m.get("ru")), json.dumps(m.get("ky")))] = m
         os.remove(f)
     return [(p["l"], p["r"], list(p["ms"].values())) for _, p in sorted(pairs.items())]     # pairs of one left document together
 
@@ -268,7 +296,42 @@ def full_tab(t):
 
 
 def rec_steps(p):
-    return [{"i": -1, "s": st} if isinstance(st, str) else {"i": st, "s": "" if st >= 0 else "?"} for st in p]
+    return [{"i": -1, "s": st} if isinstance(st, str) else {"i": st, "s": "" if st >= 0 else "*" if st == -3 else "?"} for st in p]
+
+
+def rand_configs(rng, l, r, count):
+    """Per-path configurations for a random pair: a [rules] line (and perhaps a [keys] line) naming a list of the right
+    document by its path, sometimes with one hash key replaced by the wildcard; only modes the list's kind has."""
+    import re
+    from harness import diffobs
+    out = []
+    lists = [j for j, n in enumerate(r, 1) if n["k"] == "seq"]
+    rng.shuffle(lists)
+    for j in lists:
+        if len(out) >= count:
+            break
+        q = diffobs.path_of(r, j)
+        if not all(isinstance(st, int) or re.fullmatch("[a-z]+", st) for st in q):
+            continue                                  # keep to path texts that need no escaping in the INI file
+        keys_at = [k for k, st in enumerate(q) if isinstance(st, str)]
+        if keys_at and rng.random() < 0.4:
+            k = rng.choice(keys_at)
+            q = q[:k] + [diffobs.WILD] + q[k + 1:]
+        if not (diffobs.match_sure(r, q) and diffobs.match_sure(l, q)):
+            continue
+        hit = [x for x in diffobs.match_ids(r, q) if r[x - 1]["k"] == "seq"]
+        aoh = all(r[x - 1]["kids"] and r[r[x - 1]["kids"][0] - 1]["k"] == "map" for x in hit)
+        arr = all(not (r[x - 1]["kids"] and r[r[x - 1]["kids"][0] - 1]["k"] == "map") for x in hit)
+        if not (aoh or arr):
+            continue
+        mode = rng.choice(diffobs.AOH_MODES if aoh else diffobs.ARRAY_MODES)
+        cfg = {"arrays": rng.choice(diffobs.ARRAY_MODES), "aoh": rng.choice(diffobs.AOH_MODES), "rules": [[q, mode]], "keys": []}
+        if aoh and rng.random() < 0.5:
+            cfg["keys"] = [[q, "n"]]
+            if rng.random() < 0.5:
+                cfg["rules"] = []
+        out.append(cfg)
+    return out
 
 
 def random_records(seed, n, first_id):
@@ -276,7 +339,8 @@ def random_records(seed, n, first_id):
     from harness import absdoc, diffobs
     rng = random.Random(seed)
     recs, local = [], []
-    while len(recs) < n * 10:
+    npairs = 0
+    while npairs < n:
         lit = rand_doc(rng, rng.choice([8, 14, 24, 36]))
         roll = rng.random()
         if roll < 0.15:
@@ -292,14 +356,16 @@ def random_records(seed, n, first_id):
             continue
         variant = rng.choice(querycorpus.variant_of(l + r, 0, False))
         ldata, rdata, text = load_pair(l, r, variant)
-        for ar in diffobs.ARRAY_MODES:
-            for ao in diffobs.AOH_MODES:
-                rep, crash = diffobs.run_differ(ldata, rdata, ar, ao)
-                rid = first_id + len(recs)
-                recs.append({"id": rid, "l": full_tab(l), "r": full_tab(r), "arrays": ar, "aoh": ao, "crash": bool(crash),
-                             "es": [{"a": e["a"], "p": rec_steps(e["p"]), "lv": full_tab(e["lv"]), "rv": full_tab(e["rv"])} for e in (rep or [])]})
-                local.append({"id": rid, "l": l, "r": r, "cfg": {"arrays": ar, "aoh": ao}, "rep": rep, "crash": crash, "text": text,
-                              "style": variant[0], "plain": variant[1], "lit": (repr(lit), repr(rit))})
+        npairs += 1
+        cfgs = [{"arrays": ar, "aoh": ao, "rules": [], "keys": []} for ar in diffobs.ARRAY_MODES for ao in diffobs.AOH_MODES]
+        for cfg in cfgs + rand_configs(rng, l, r, 3):
+            rep, crash = run_real(ldata, rdata, cfg, len(recs)) if cfg["rules"] or cfg["keys"] else diffobs.run_differ(ldata, rdata, cfg["arrays"], cfg["aoh"])
+            rid = first_id + len(recs)
+            recs.append({"id": rid, "l": full_tab(l), "r": full_tab(r), "arrays": cfg["arrays"], "aoh": cfg["aoh"], "crash": bool(crash),
+                         "rules": [{"p": rec_steps(q), "v": v} for q, v in cfg["rules"]], "keys": [{"p": rec_steps(q), "v": v} for q, v in cfg["keys"]],
+                         "es": [{"a": e["a"], "p": rec_steps(e["p"]), "lv": full_tab(e["lv"]), "rv": full_tab(e["rv"])} for e in (rep or [])]})
+            local.append({"id": rid, "l": l, "r": r, "cfg": cfg, "rep": rep, "crash": crash, "text": text,
+                          "style": variant[0], "plain": variant[1], "lit": (repr(lit), repr(rit))})
     return recs, local
 
 
@@ -388,6 +454,7 @@ def random_tier(ctx, npairs, stats):
             stats["random_drift"] += 1
         for sig, desc, clause in viol:
             ctx.violation(sig, desc, {"kind": "random", "l": lc["l"], "r": lc["r"], "arrays": lc["cfg"]["arrays"], "aoh": lc["cfg"]["aoh"],
+                                      "rules": lc["cfg"]["rules"], "keys": lc["cfg"]["keys"],
                                       "style": lc["style"], "plain": lc["plain"], "clause": clause, "literals": lc["lit"]})
     return local
 
@@ -395,8 +462,9 @@ def random_tier(ctx, npairs, stats):
 def run(ctx):
     # MC_Diff_mir: the clauses on the differ as pinned before the fix: commits (Repaired = {}) - TLC must find the defect;
     # every other cfg mirrors the code with the five repairs (Repaired = AllFixes)
-    cfgs = ["MC_Diff_q.cfg", "MC_Diff_qr.cfg", "MC_Diff_qi.cfg", "MC_Diff_qf.cfg", "MC_Diff_mir.cfg"] if ctx.quick else \
-           ["MC_Diff_t.cfg", "MC_Diff_tr.cfg", "MC_Diff_t2.cfg", "MC_Diff_q.cfg", "MC_Diff_qt.cfg", "MC_Diff_ti.cfg", "MC_Diff_mir.cfg"]
+    # MC_Diff_qc / tc: the per-path configuration family ([rules] / [keys] of an INI file, single and wildcard paths)
+    cfgs = ["MC_Diff_q.cfg", "MC_Diff_qc.cfg", "MC_Diff_qr.cfg", "MC_Diff_qi.cfg", "MC_Diff_qf.cfg", "MC_Diff_qcf.cfg", "MC_Diff_mir.cfg"] if ctx.quick else \
+           ["MC_Diff_t.cfg", "MC_Diff_tr.cfg", "MC_Diff_tc.cfg", "MC_Diff_t2.cfg", "MC_Diff_q.cfg", "MC_Diff_qt.cfg", "MC_Diff_ti.cfg", "MC_Diff_mir.cfg"]
     import time
     t0 = time.time()
     pairs = tlc_pairs(ctx, cfgs)
@@ -413,7 +481,7 @@ def run(ctx):
         pairs = [p for k, p in enumerate(pairs) if k % 3 == keep or p[0] == p[1] or len(p[0]) > 4
                  or any(n[0] == "map" and any(kt != "str" or kv in ("0", "n", "v") for kt, kv in n[4]) for n in p[0] + p[1])
                  or any(n[0] == "s" and n[1] == "str" and n[2] == "1" for n in p[0] + p[1])]
-    items = [(l, r, ms, variants_for(l, r, ctx.seed, ctx.quick)) for l, r, ms in pairs]
+    items = [(l, r, ms, variants_for(l, r, ctx.seed, ctx.quick)) for l, r, ms in pairs if ms]
     tot = collections.Counter()
     seen = collections.Counter()
     sample = None
@@ -446,6 +514,7 @@ def run(ctx):
         "repaired_theorems_hold": True, "documents_changed_by_differ": tot["documents_changed_by_differ"],
         "model_drift": tot["drift"], "model_drift_sample": sample, "random_model_drift": rstats["random_drift"],
         "outside_domain": tot["outside_domain"] + rstats["outside_domain"],
+        "per_path_config_evaluations": tot["per_path_config_evaluations"] + sum(1 for lc in local if lc["cfg"]["rules"] or lc["cfg"]["keys"]),
         "random_pairs_x_modes": rstats["random_evaluations"], "binding_selftest": selftest,
         "violation_signatures": dict(sorted(collections.Counter(v["sig"] for v in ctx.violations).items())),
         "samples": ([{"pair": ex["text"], "cfg": ex["cfg"], "report": [[e["a"], e["p"]] for e in ex["rep"]]}] if ex else []),
@@ -456,7 +525,10 @@ def run(ctx):
                         "scalars are equal when Python compares the loaded values equal (1 == true); hashes and sets are unordered",
                         "an element is a scalar leaf together with the hash keys on the way to it (list positions left out); empty containers are not leaves",
                         "pairs equal only up to list order are judged where the statement has one reading (YDiff.Clear), else informational",
-                        "key/deep are judged only when every list compared by identity key holds hashes only"]
+                        "key/deep are judged only when every list compared by identity key holds hashes only",
+                        "per-path configuration: a [rules] / [keys] path governs the nodes it designates in the right document (as differconfig.py "
+                        "registers them) and the list at the same path on the left; a rule names a mode the list's kind has; paths whose key or "
+                        "wildcard step meets a list (yamlpath then searches the records) are informational"]
 
 
 def replay(path):
@@ -467,10 +539,10 @@ def replay(path):
         l, r = diffobs.expand(rp["l"]), diffobs.expand(rp["r"])
     else:
         l, r = rp["l"], rp["r"]
-    cfg = {"arrays": rp["arrays"], "aoh": rp["aoh"]}
+    cfg = {"arrays": rp["arrays"], "aoh": rp["aoh"], "rules": rp.get("rules", []), "keys": rp.get("keys", [])}
     ldata, rdata, text = load_pair(l, r, (rp["style"], rp["plain"]))
-    rep, crash = diffobs.run_differ(ldata, rdata, cfg["arrays"], cfg["aoh"])
-    print("pair:", text, cfg)
+    rep, crash = run_real(ldata, rdata, cfg, 0)
+    print("pair:", text, cfg_text(cfg))
     for e in rep or []:
         print("  ", e["a"], e["p"], absdoc.plain_data(e["lv"]), absdoc.plain_data(e["rv"]))
     viol, _ = judge_report(l, r, cfg, rep, crash, {}, text)
